@@ -33,6 +33,17 @@ func init() {
 				}
 			}
 		}
+		// the receiving connection has output of its own stuck in the poller (its peer does not read)
+		// when the peer's last bytes and its close arrive: they are still all readable before EOF
+		for _, chunks := range []string{"12", "5-7"} {
+			for _, mix := range []string{"next5", "handler4"} {
+				chunks, mix := chunks, mix
+				vs = append(vs, Variant{
+					Name: fmt.Sprintf("chunks=%s,reader=%s,shortreads=false,pending-output=true", chunks, mix),
+					Make: func() *vsched.Scenario { return recvScenarioOut(chunks, mix, false, true) },
+				})
+			}
+		}
 		return vs
 	})
 	// the same drivers, built with statement-level scheduling points inside the LinkBuffer
@@ -85,6 +96,10 @@ func init() {
 }
 
 func recvScenario(chunks, mix string, short bool) *vsched.Scenario {
+	return recvScenarioOut(chunks, mix, short, false)
+}
+
+func recvScenarioOut(chunks, mix string, short, pendingOut bool) *vsched.Scenario {
 	var got []byte
 	var firstErr error
 	var errAt int
@@ -95,14 +110,34 @@ func recvScenario(chunks, mix string, short bool) *vsched.Scenario {
 		netpoll.VerifReset(1)
 		netpoll.LinkBufferCap = 4
 		netpoll.Configure(netpoll.Config{BufferSize: 4, LoadBalance: netpoll.RoundRobin})
-		a, b := vsyscall.HSocketpair(0)
+		sndbuf := 0
+		if pendingOut {
+			sndbuf = 4096
+		}
+		a, b := vsyscall.HSocketpair(sndbuf)
 		vsyscall.Adopt(a)
 		vsyscall.L().Dev.ReadShort = short
 		c, err := netpoll.VerifFDConn(a, "unix")
 		if err != nil {
 			panic(err)
 		}
+		outStuck := !pendingOut
+		if pendingOut {
+			vsched.Go("writer", func() {
+				w := c.Writer()
+				p, _ := w.Malloc(20000)
+				copy(p, stream(1000, 20000))
+				vsched.LogEvent("writer:flush")
+				outStuck = true
+				err := w.Flush() // the peer never reads: ends with an error when the peer closes
+				vsched.LogEvent("writer:flush-ret " + errClass(err))
+			})
+		}
 		vsched.Go("peer", func() {
+			if pendingOut {
+				// wait until the writer's flush has been handed to the poller (write interest registered)
+				vsched.WaitCond("output-stuck", func() bool { return outStuck && netpoll.VerifState(c).OutputLen > 0 && vsyscall.L().HasWriteInterest(a) })
+			}
 			off := 0
 			for _, s := range strings.Split(chunks, "-") {
 				var n int
